@@ -347,7 +347,19 @@ def k_via_api(run, case):
                   key="umeyama@api:degenerate-accepted")
 
 
-KINDS = {"align": k_align, "degenerate": k_degenerate, "via_align": k_via_align, "via_api": k_via_api}
+def k_cli(run, case):
+    """
+    A fourth call site: evo_traj --ref ... --align / --correct_scale on several trajectories of
+    different lengths.  The exported trajectories must be the least-squares aligned inputs (C15's
+    workload executor: own parsers, Horn alignment of every trajectory on its own registered
+    pairs, export oracle).
+    """
+    from vmon.props import C15
+    C15.k_cli(run, case)
+    run.hit("evo_traj runs with alignment to a reference judged")
+
+
+KINDS = {"align": k_align, "degenerate": k_degenerate, "via_align": k_via_align, "via_api": k_via_api, "cli": k_cli}
 
 
 def main(run):
@@ -368,7 +380,10 @@ def main(run):
         k_via_align(run, run.case("via_align", i))
     for i in run.mine(n // 8):
         k_via_api(run, run.case("via_api", i))
-    run.need("requested alignment reaches umeyama_alignment exactly once", "umeyama: proper rotation", "umeyama: optimal vs Horn",
+    for i in run.mine({"quick": 60, "thorough": 1500}[run.tier]):
+        k_cli(run, run.case("cli", i, force={"use_ref": True, "align": i % 3 != 2, "correct_scale": i % 3 != 0,
+                                             "merge": False, "plane": False}))
+    run.need("evo_traj runs with alignment to a reference judged", "requested alignment reaches umeyama_alignment exactly once", "umeyama: proper rotation", "umeyama: optimal vs Horn",
              "umeyama: optimal vs perturbation", "noise-free: rotation reproduced",
              "equivariance: rotation", "exactly degenerate set refused",
              "umeyama: unequal shapes refused", "umeyama@align: optimal vs Horn",
